@@ -31,6 +31,7 @@ type Profile struct {
 	NodeMem   [2]int // capacity range memory [lo, hi]
 	AskMem    int    // asks memory 1..AskMem
 	ForcedPct int
+	AgedPct   int // % of asks created "one hour ago" (default 50)
 	NodeSort  string
 }
 
@@ -73,12 +74,12 @@ func GetProfile(name string) *Profile {
 			GangPct: 15, ReqNode: 0, MaxPrio: 2, NodeMem: [2]int{2, 5}, AskMem: 3}
 	case "preempt":
 		return &Profile{Name: name, Conf: "pre", Queues: []string{"root.p.x", "root.p.y", "root.p.z", "root.f.u", "root.f.v", "root.nop"}, Apps: 6, Nodes: 3, Users: u2, Groups: g,
-			W:       withW(map[string]int{"firePhTimer": 0, "deny": 0, "foreign": 1, "foreignRemove": 1, "addAsk": 24, "confirm": 12, "reportBound": 0, "updateAsk": 0}),
-			GangPct: 0, ReqNode: 10, MaxPrio: 4, NodeMem: [2]int{3, 6}, AskMem: 3}
+			W:       withW(map[string]int{"firePhTimer": 0, "deny": 0, "foreign": 1, "foreignRemove": 1, "addAsk": 30, "release": 3, "removeNode": 1, "removeApp": 1, "addNode": 8, "schedule": 45, "confirm": 12, "reportBound": 0, "updateAsk": 0}),
+			GangPct: 0, ReqNode: 10, MaxPrio: 4, NodeMem: [2]int{3, 6}, AskMem: 3, AgedPct: 80}
 	case "preempt2":
 		return &Profile{Name: name, Conf: "pre2", Queues: []string{"root.p.x", "root.p.y", "root.q", "root.r.s", "root.r.t"}, Apps: 6, Nodes: 3, Users: u2, Groups: g,
-			W:       withW(map[string]int{"firePhTimer": 0, "deny": 0, "foreign": 1, "foreignRemove": 1, "addAsk": 24, "confirm": 12, "reportBound": 0, "updateAsk": 0}),
-			GangPct: 0, ReqNode: 14, MaxPrio: 4, NodeMem: [2]int{3, 6}, AskMem: 3}
+			W:       withW(map[string]int{"firePhTimer": 0, "deny": 0, "foreign": 1, "foreignRemove": 1, "addAsk": 30, "release": 3, "removeNode": 1, "removeApp": 1, "addNode": 8, "schedule": 45, "confirm": 12, "reportBound": 0, "updateAsk": 0}),
+			GangPct: 0, ReqNode: 14, MaxPrio: 4, NodeMem: [2]int{3, 6}, AskMem: 3, AgedPct: 80}
 	case "quota":
 		return &Profile{Name: name, Conf: "quota", Reloads: []string{"quota", "quotaLow"}, Queues: []string{"root.a", "root.p.x", "root.p.y"}, Apps: 4, Nodes: 3, Users: u2, Groups: g,
 			W:       withW(map[string]int{"reload": 5, "quotaTick": 6, "firePhTimer": 0, "deny": 0, "confirm": 12, "reportBound": 2}),
@@ -139,6 +140,13 @@ func (g *Gen) pick() string {
 	return "schedule"
 }
 
+func (g *Gen) agedPct() int {
+	if g.P.AgedPct > 0 {
+		return g.P.AgedPct
+	}
+	return 50
+}
+
 func (g *Gen) node() string { return fmt.Sprintf("n%d", g.rng.Intn(g.P.Nodes)) }
 func (g *Gen) app() string  { return fmt.Sprintf("app%d", g.rng.Intn(g.P.Apps)) }
 
@@ -162,6 +170,50 @@ func (g *Gen) cap() map[string]int64 {
 // First returns the reset line of a trace.
 func (g *Gen) First() M {
 	return M{"op": "reset", "conf": g.P.Conf, "profile": g.P.Name}
+}
+
+// Prologue returns scripted operations that bring a trace quickly into the regime the profile is about (for the
+// preemption profiles: full nodes held by applications in queues without guarantee, then aged asks in guaranteed queues).
+func (g *Gen) Prologue() []M {
+	if g.P.Name != "preempt" && g.P.Name != "preempt2" {
+		return nil
+	}
+	rng := g.rng
+	var ops []M
+	for n := 0; n < g.P.Nodes; n++ {
+		ops = append(ops, M{"op": "addNode", "node": fmt.Sprintf("n%d", n), "cap": g.cap(), "drained": false})
+	}
+	// the last queues of the profile have no guarantee: victims live there; the first ones are guaranteed: askers
+	nq := len(g.P.Queues)
+	ask := func(app string, mem int, prio int, aged bool) {
+		key := fmt.Sprintf("k%d", g.nextKey)
+		g.nextKey++
+		ops = append(ops, M{"op": "addAsk", "app": app, "key": key, "res": map[string]int64{"memory": int64(mem)}, "ph": false, "tg": "", "aged": aged, "reqNode": "",
+			"prio": prio, "preemptOther": true, "preemptSelf": true, "originator": false, "node": ""})
+		g.keys = append(g.keys, askInfo{app, key, false})
+	}
+	for i := 0; i < 3; i++ {
+		app := fmt.Sprintf("app%d", i)
+		q := g.P.Queues[nq-1-rng.Intn(3)]
+		ops = append(ops, M{"op": "addApp", "app": app, "queue": q, "user": g.P.Users[rng.Intn(len(g.P.Users))], "groups": []string{"g1"}, "gang": false, "style": "", "forced": false, "tags": map[string]string{}})
+		g.live[app] = true
+		for j := 0; j < 4+rng.Intn(4); j++ {
+			ask(app, 1+rng.Intn(2), rng.Intn(2), false)
+		}
+	}
+	for i := 0; i < 14; i++ {
+		ops = append(ops, M{"op": "schedule"})
+	}
+	for i := 3; i < 5; i++ {
+		app := fmt.Sprintf("app%d", i)
+		q := g.P.Queues[rng.Intn(2)]
+		ops = append(ops, M{"op": "addApp", "app": app, "queue": q, "user": g.P.Users[rng.Intn(len(g.P.Users))], "groups": []string{"g1"}, "gang": false, "style": "", "forced": false, "tags": map[string]string{}})
+		g.live[app] = true
+		for j := 0; j < 2+rng.Intn(2); j++ {
+			ask(app, 1+rng.Intn(2), 1+rng.Intn(3), true)
+		}
+	}
+	return ops
 }
 
 func (g *Gen) Next() M {
@@ -220,7 +272,7 @@ func (g *Gen) Next() M {
 		if g.P.ReqNode > 0 && rng.Intn(g.P.ReqNode) == 0 {
 			reqNode = g.node()
 		}
-		op := M{"op": name, "app": app, "key": key, "res": rs, "ph": ph, "tg": tg, "aged": rng.Intn(2) == 0, "reqNode": reqNode, "prio": rng.Intn(g.P.MaxPrio),
+		op := M{"op": name, "app": app, "key": key, "res": rs, "ph": ph, "tg": tg, "aged": rng.Intn(100) < g.agedPct(), "reqNode": reqNode, "prio": rng.Intn(g.P.MaxPrio),
 			"preemptOther": rng.Intn(5) != 0, "preemptSelf": rng.Intn(5) != 0, "originator": rng.Intn(6) == 0, "node": ""}
 		if name == "reportBound" {
 			op["node"] = g.node()
